@@ -26,7 +26,8 @@ class PROP(Prop):
                 R = "d" + cligen.frame("tcp", tid, slave, b"\x03\x02\x00\x07").hex()
                 ops.append(cligen.call_op(req, R=R)); kinds.append("good"); k += 1
             elif r < 0.84:
-                R = "d" + cligen.frame("tcp", tid, slave, b"\x83\x02").hex()
+                # every exception code, also the ones that suggest "try again later" (Acknowledge 5, ServerDeviceBusy 6, gateway 10 / 11)
+                R = "d" + cligen.frame("tcp", tid, slave, bytes([0x83, rng.choice([1, 2, 3, 4, 5, 6, 6, 8, 10, 11, rng.randrange(256)])])).hex()
                 ops.append(cligen.call_op(req, R=R)); kinds.append("exc"); k += 1
             elif r < 0.88:
                 R = "d" + cligen.frame("tcp", (tid + 5) & 0xFFFF, slave, b"\x03\x02\x00\x07").hex()
